@@ -414,14 +414,21 @@ pub fn parse_choice_text(input: &str) -> Result<ParsedChoiceText, CompilerError>
         } else {
             start_text.trim_end().to_owned()
         };
+        // The two parts are joined as written: a space only where the source has one.
+        // (with a tag in front of the brackets, the text ends where the tag starts)
+        let text_before = if start_tags.is_empty() {
+            before
+        } else {
+            start_text.as_str()
+        };
+        let gap_as_written =
+            text_before.ends_with(char::is_whitespace) || after.starts_with(char::is_whitespace);
         let selected_text = if suffix_text.is_empty() {
             joined_start
-        } else if suffix_text
-            .starts_with(|c: char| c.is_ascii_punctuation() && c != '"' && c != '\'')
-        {
-            format!("{joined_start}{suffix_text}")
-        } else {
+        } else if gap_as_written {
             format!("{joined_start} {suffix_text}")
+        } else {
+            format!("{joined_start}{suffix_text}")
         };
         let mut selected_tags = start_tags.clone();
         selected_tags.extend(suffix_tags);
@@ -446,9 +453,15 @@ pub fn parse_choice_text(input: &str) -> Result<ParsedChoiceText, CompilerError>
         let close = open + 1 + close_rel;
         let start = &trimmed[..open];
         let choice_only = trimmed[open + 1..close].trim();
-        let end = trimmed[close + 1..].trim_start();
+        let raw_end = &trimmed[close + 1..];
+        let end = raw_end.trim_start();
         let (end, inline_target) = split_inline_choice_divert(end)?;
         let (start_text, start_tags) = split_text_and_tags(start)?;
+        // The text before and after the brackets is joined as written: a space only
+        // where the source has one (with a tag in front of the brackets, the text ends
+        // where the tag starts).
+        let gap_as_written = start_text.ends_with(char::is_whitespace)
+            || raw_end.starts_with(char::is_whitespace);
         let (choice_only_text, choice_only_tags) = split_text_and_tags(choice_only)?;
         let (end_text, end_tags) = split_text_and_tags(end)?;
         // Append closing punctuation from `end` to choice_only_text only when the
@@ -469,12 +482,10 @@ pub fn parse_choice_text(input: &str) -> Result<ParsedChoiceText, CompilerError>
             start_text.trim_end().to_owned()
         } else if start_text.trim().is_empty() {
             end_text
-        } else if end_text
-            .starts_with(|c: char| c.is_ascii_punctuation() && c != '"' && c != '\'' && c != '{')
-        {
-            format!("{}{}", start_text.trim_end(), end_text)
-        } else {
+        } else if gap_as_written {
             format!("{} {}", start_text.trim_end(), end_text)
+        } else {
+            format!("{}{}", start_text.trim_end(), end_text)
         };
         let mut selected_tags = start_tags.clone();
         selected_tags.extend(end_tags);
